@@ -182,7 +182,7 @@ PAIRS = tuple((d, u) for (u, d) in sorted(SAME_FAMILY_SPLITS))
 
 
 class _Spread(Contract):
-    prop = ("C16", "C17")
+    prop = ("C16", "C17", "C12")
     top_level = True
     cases = PAIRS
 
